@@ -40,8 +40,39 @@ def gen_int(rng, with_constraints):
     return d
 
 
+def gen_boundary(rng, with_constraints):
+    """Instances built to reach the boundary-improvement phase: directions of negative or zero curvature make the truncated CG end
+    on the trust-region boundary without touching a bound, and the bounds are lopsided (one side within a fraction of the radius,
+    the other far away) so that the following rotations are limited now by a lower, now by an upper bound."""
+    n = int(rng.integers(2, 5))
+    delta = float(10.0 ** rng.uniform(-2, 2))
+    grad = rng.standard_normal(n) * 10.0 ** rng.uniform(-1, 1)
+    grad[rng.random(n) < 0.3] *= 0.1
+    Q, _ = np.linalg.qr(rng.standard_normal((n, n)))
+    ev = rng.standard_normal(n) * 2.0
+    ev[int(rng.integers(0, n))] = -abs(rng.standard_normal()) * 2.0 - 0.1
+    H = np.diag(ev) if rng.random() < 0.5 else (Q * ev) @ Q.T
+    near = rng.uniform(0.1, 1.2, n) * delta
+    far = rng.uniform(1.5, 4.0, n) * delta
+    up = rng.random(n) < 0.5
+    xl = -np.where(up, far, near)
+    xu = np.where(up, near, far)
+    both_far = rng.random(n) < 0.3
+    xl[both_far], xu[both_far] = -far[both_far], far[both_far]
+    d = dict(n=n, grad=grad, H=H, xl=xl, xu=xu, delta=delta, improve_tcg=True)
+    if with_constraints:
+        mub, meq = int(rng.integers(0, 3)), int(rng.integers(0, 2))
+        aub = rng.standard_normal((mub, n))
+        d.update(aub=aub, bub=np.abs(rng.standard_normal(mub)) * delta * rng.uniform(0.1, 2.0), aeq=rng.standard_normal((meq, n)),
+                 beq=rng.standard_normal(meq))
+    return d
+
+
 def gen(rng, with_constraints):
-    if rng.random() < 0.5:
+    u = rng.random()
+    if u < 0.3:
+        return gen_boundary(rng, with_constraints)
+    if u < 0.65:
         return gen_int(rng, with_constraints)
     n = int(rng.integers(1, 7))
     mag = 10.0 ** rng.uniform(-6, 6)
@@ -74,18 +105,14 @@ def gen(rng, with_constraints):
     return d
 
 
-def tolstep(delta):
-    return delta * (1.0 + 1e-9) + 1e-300
-
-
-def in_bounds(step, xl, xu):
-    return bool(np.all(np.minimum(xl, 0.0) <= step) and np.all(step <= np.maximum(xu, 0.0)))
+from .subsolver_clauses import tolstep, in_bounds, CLAUSES  # noqa: E402  (z3-free: shared with the native replay)
 
 
 class Bounded(Unit):
     fmodel = "ORDER"
-    props = ("C15", "C16")
+    props = ("C15", "C16", "C01")     # C01's step units assume "the subsolver's step is inside the bounds it was given"
     solver = None
+    replay = ("contracts.replays", "subsolver_case")
 
     @property
     def bounded(self):
@@ -97,112 +124,63 @@ class Bounded(Unit):
     def run(self, c):
         ensure_repo_on_path()
         rng = rng_for(self.name)
-        fails = {}
+        fails, seen = {}, []
         N = ncases()
         with np.errstate(all="ignore"):
             for k in range(N):
-                for nm, ok, info in self.case(rng):
+                d = self.case(rng)
+                for nm, ok in CLAUSES[self.solver](d):
+                    if nm not in seen:
+                        seen.append(nm)
                     if not ok and nm not in fails:
-                        fails[nm] = f"case {k}: {info}"
-                    fails.setdefault("__seen__" + nm, None)
-        names = sorted(k[8:] for k in fails if k.startswith("__seen__"))
-        for nm in names:
-            c.oblige(f"{nm}[{N} cases]", z3.BoolVal(nm not in fails), kind="bounded", note=fails.get(nm))
-
-
+                        fails[nm] = (k, {kk: (v.tolist() if isinstance(v, np.ndarray) else v) for kk, v in d.items()})
+        for nm in sorted(seen):
+            props = [nm[:3]] + (["C01"] if nm.endswith("step_within_bounds") else [])
+            bad = fails.get(nm)
+            c.oblige(f"{nm}[{N} cases]", z3.BoolVal(bad is None), kind="bounded", props=props,
+                     note=None if bad is None else f"case {bad[0]}: {bad[1]}",
+                     replay_inputs=None if bad is None else {"solver": self.solver, "clause": nm, "case": bad[1]})
 class TangentialBounded(Bounded):
     name = "subsolvers.bounded_tangential"
+    solver = "tangential"
     functions = [("cobyqa.subsolvers.optim", "tangential_byrd_omojokun")]
 
     def case(self, rng):
-        from cobyqa.subsolvers import tangential_byrd_omojokun
-        d = gen(rng, False)
-        hp = lambda v: d["H"] @ v
-        s = tangential_byrd_omojokun(d["grad"], hp, d["xl"], d["xu"], d["delta"], False, improve_tcg=d["improve_tcg"])
-        q = d["grad"] @ s + 0.5 * s @ hp(s)
-        scale = np.abs(d["grad"]) @ np.abs(s) + 0.5 * np.abs(s) @ np.abs(d["H"]) @ np.abs(s)
-        info = {k: (v.tolist() if isinstance(v, np.ndarray) else v) for k, v in d.items()}
-        yield "C15.tangential.step_within_bounds", in_bounds(s, d["xl"], d["xu"]) and not np.any(np.isnan(s)), info
-        yield "C15.tangential.norm_within_radius", np.linalg.norm(s) <= tolstep(d["delta"]), info
-        yield "C16.tangential.model_not_increased", q <= 1e-12 * scale + 1e-300, info
+        return gen(rng, False)
 
 
 class ConstrainedTangentialBounded(Bounded):
     name = "subsolvers.bounded_constrained_tangential"
+    solver = "constrained_tangential"
     functions = [("cobyqa.subsolvers.optim", "constrained_tangential_byrd_omojokun")]
 
     def case(self, rng):
-        from cobyqa.subsolvers import constrained_tangential_byrd_omojokun
-        d = gen(rng, True)
-        hp = lambda v: d["H"] @ v
-        s = constrained_tangential_byrd_omojokun(d["grad"], hp, d["xl"], d["xu"], d["aub"], d["bub"], d["aeq"], d["delta"], False,
-                                                 improve_tcg=d["improve_tcg"])
-        q = d["grad"] @ s + 0.5 * s @ hp(s)
-        scale = np.abs(d["grad"]) @ np.abs(s) + 0.5 * np.abs(s) @ np.abs(d["H"]) @ np.abs(s)
-        info = {k: (v.tolist() if isinstance(v, np.ndarray) else v) for k, v in d.items()}
-        ns = np.linalg.norm(s)
-        # "up to rounding": relative to the size of the data of each row (|a_i| |s| + |b_i|), not to the possibly cancelling a_i.s
-        tol_ub = 1e-9 * (np.linalg.norm(d["aub"], axis=1) * ns + np.abs(d["bub"])) + 1e-300 if d["aub"].size else 0.0
-        tol_eq = 1e-8 * (np.abs(d["aeq"]) @ np.abs(s)) + 1e-300 + 1e-9 * ns * np.linalg.norm(d["aeq"], axis=1) if d["aeq"].size else 0.0
-        yield "C15.constrained_tangential.step_within_bounds", in_bounds(s, d["xl"], d["xu"]) and not np.any(np.isnan(s)), info
-        yield "C15.constrained_tangential.norm_within_radius", ns <= tolstep(d["delta"]), info
-        yield "C15.constrained_tangential.inequalities_kept", bool(np.all(d["aub"] @ s <= d["bub"] + tol_ub)), info
-        yield "C15.constrained_tangential.equalities_null_space", bool(np.all(np.abs(d["aeq"] @ s) <= tol_eq)), info
-        yield "C16.constrained_tangential.model_not_increased", q <= 1e-12 * scale + 1e-300, info
+        return gen(rng, True)
 
 
 class NormalBounded(Bounded):
     name = "subsolvers.bounded_normal"
+    solver = "normal"
     functions = [("cobyqa.subsolvers.optim", "normal_byrd_omojokun")]
 
     def case(self, rng):
-        from cobyqa.subsolvers import normal_byrd_omojokun
         d = gen(rng, True)
-        bub = d["bub"] * rng.choice([-1.0, 1.0], size=d["bub"].size)      # the origin may violate the linearised constraints
-        s = normal_byrd_omojokun(d["aub"], bub, d["aeq"], d["beq"], d["xl"], d["xu"], d["delta"], False, improve_tcg=d["improve_tcg"])
-        viol = lambda x: np.sum(np.maximum(d["aub"] @ x - bub, 0.0) ** 2) + np.sum((d["aeq"] @ x - d["beq"]) ** 2)
-        v0, v1 = viol(np.zeros(d["n"])), viol(s)
-        info = {k: (v.tolist() if isinstance(v, np.ndarray) else v) for k, v in d.items()}
-        info["bub"] = bub.tolist()
-        yield "C15.normal.step_within_bounds", in_bounds(s, d["xl"], d["xu"]) and not np.any(np.isnan(s)), info
-        yield "C15.normal.norm_within_radius", np.linalg.norm(s) <= tolstep(d["delta"]), info
-        yield "C16.normal.violation_not_increased", v1 <= v0 * (1 + 1e-10) + 1e-300, info
+        d["bub"] = d["bub"] * rng.choice([-1.0, 1.0], size=d["bub"].size)      # the origin may violate the linearised constraints
+        return d
 
 
 class GeometryBounded(Bounded):
     name = "subsolvers.bounded_geometry"
+    solver = "geometry"
     functions = [("cobyqa.subsolvers.geometry", "cauchy_geometry"), ("cobyqa.subsolvers.geometry", "spider_geometry"),
                  ("cobyqa.subsolvers.geometry", "_cauchy_geom")]
 
     def case(self, rng):
-        from cobyqa.subsolvers import cauchy_geometry, spider_geometry
         d = gen(rng, False)
-        const = float(rng.standard_normal() * (rng.random() > 0.3))
-        H = d["H"]
-        curv = lambda v: v @ H @ v
-        q = lambda s: const + d["grad"] @ s + 0.5 * curv(s)
-        info = {k: (v.tolist() if isinstance(v, np.ndarray) else v) for k, v in d.items()}
-        info["const"] = const
-        s = cauchy_geometry(const, d["grad"], curv, d["xl"], d["xu"], d["delta"], False)
-        sc = abs(const) + np.abs(d["grad"]) @ np.abs(s) + 0.5 * np.abs(s) @ np.abs(H) @ np.abs(s)
-        yield "C15.cauchy_geometry.step_within_bounds", in_bounds(s, d["xl"], d["xu"]) and not np.any(np.isnan(s)), info
-        yield "C15.cauchy_geometry.norm_within_radius", np.linalg.norm(s) <= tolstep(d["delta"]), info
-        yield "C16.cauchy_geometry.magnitude_not_decreased", abs(q(s)) >= abs(const) - 1e-12 * sc, info
-        xlc, xuc = np.minimum(d["xl"], 0.0), np.maximum(d["xu"], 0.0)
-        up = np.any((d["grad"] > 0) & (xuc > 0)) or np.any((d["grad"] < 0) & (xlc < 0))        # feasible direction increasing q
-        down = np.any((d["grad"] < 0) & (xuc > 0)) or np.any((d["grad"] > 0) & (xlc < 0))      # feasible direction decreasing q
-        # a feasible first-order direction improving |q|: increase q if const >= 0, decrease it if const <= 0
-        ascent = (const >= 0 and up) or (const <= 0 and down)
-        fits = np.linalg.norm(np.where(np.isfinite(xlc), xlc, np.inf)) <= d["delta"] and np.linalg.norm(np.where(np.isfinite(xuc), xuc, np.inf)) <= d["delta"]
-        if ascent and fits and not np.any(H):
-            yield "C16.cauchy_geometry.strict_increase_with_feasible_direction", abs(q(s)) > abs(const), info
+        d["const"] = float(rng.standard_normal() * (rng.random() > 0.3))
         npt = int(rng.integers(1, 2 * d["n"] + 2))
-        xpt = rng.standard_normal((d["n"], npt)) * 10.0 ** rng.uniform(-3, 3)
-        s2 = spider_geometry(const, d["grad"], curv, xpt, d["xl"], d["xu"], d["delta"], False)
-        sc2 = abs(const) + np.abs(d["grad"]) @ np.abs(s2) + 0.5 * np.abs(s2) @ np.abs(H) @ np.abs(s2)
-        yield "C15.spider_geometry.step_within_bounds", in_bounds(s2, d["xl"], d["xu"]) and not np.any(np.isnan(s2)), info
-        yield "C15.spider_geometry.norm_within_radius", np.linalg.norm(s2) <= tolstep(d["delta"]), info
-        yield "C16.spider_geometry.magnitude_not_decreased", abs(q(s2)) >= abs(const) - 1e-9 * sc2, info
+        d["xpt"] = rng.standard_normal((d["n"], npt)) * 10.0 ** rng.uniform(-3, 3)
+        return d
 
 
 UNITS = [TangentialBounded(), ConstrainedTangentialBounded(), NormalBounded(), GeometryBounded()]
